@@ -309,15 +309,201 @@ func (o *Once) Do(f func()) {
 	}
 }
 
-// Cond is not modelled; goatcore does not use it. NewCond panics inside an execution.
-type Cond = sync.Cond
+// TryLock tries to lock m without blocking (a scheduling point, then one attempt).
+func (m *Mutex) TryLock() bool {
+	x := cx
+	if x == nil {
+		return m.real.TryLock()
+	}
+	if x.aborting {
+		return false
+	}
+	m.sync(x)
+	x.point(&pendingOp{name: "trylock", obj: x.objID(m), nopre: nopreOf(x, &m.nopre, 2)})
+	if m.locked {
+		return false
+	}
+	m.locked = true
+	if x.race != nil {
+		x.cur.vc.join(m.vc)
+	}
+	return true
+}
+
+// TryLock tries to take the write lock without blocking.
+func (m *RWMutex) TryLock() bool {
+	x := cx
+	if x == nil {
+		return m.real.TryLock()
+	}
+	if x.aborting {
+		return false
+	}
+	m.sync(x)
+	x.point(&pendingOp{name: "trywlock", obj: x.objID(m), nopre: nopreOf(x, &m.nopre, 2)})
+	if m.wmu || m.readers != 0 {
+		return false
+	}
+	m.wmu, m.wactive = true, true
+	if x.race != nil {
+		x.cur.vc.join(m.vcW)
+		x.cur.vc.join(m.vcR)
+	}
+	return true
+}
+
+// TryRLock tries to take a read lock without blocking.
+func (m *RWMutex) TryRLock() bool {
+	x := cx
+	if x == nil {
+		return m.real.TryRLock()
+	}
+	if x.aborting {
+		return false
+	}
+	m.sync(x)
+	x.point(&pendingOp{name: "tryrlock", obj: x.objID(m), nopre: nopreOf(x, &m.nopre, 2)})
+	if m.wmu {
+		return false
+	}
+	m.readers++
+	if x.race != nil {
+		x.cur.vc.join(m.vcW)
+	}
+	return true
+}
+
+// Cond is the instrumented sync.Cond: Wait releases L, blocks until a later Signal/Broadcast
+// has released this waiter (FIFO for Signal), and re-acquires L.
+type Cond struct {
+	L       sync.Locker
+	real    *sync.Cond
+	epoch   uint64
+	next    int          // ticket of the next waiter
+	pending []int        // tickets waiting, oldest first
+	woken   map[int]bool // tickets released by Signal/Broadcast
+}
 
 // NewCond mirrors sync.NewCond.
-func NewCond(l sync.Locker) *sync.Cond {
-	if cx != nil {
-		panic("vsched: sync.Cond is not modelled")
+func NewCond(l sync.Locker) *Cond { return &Cond{L: l, real: sync.NewCond(l)} }
+
+func (c *Cond) sync(x *Exec) {
+	if c.epoch != x.epoch {
+		c.epoch, c.next, c.pending, c.woken = x.epoch, 0, nil, map[int]bool{}
 	}
-	return sync.NewCond(l)
+}
+
+// Wait mirrors sync.Cond.Wait.
+func (c *Cond) Wait() {
+	x := cx
+	if x == nil {
+		c.real.Wait()
+		return
+	}
+	if x.aborting {
+		return
+	}
+	c.sync(x)
+	t := c.next
+	c.next++
+	c.pending = append(c.pending, t)
+	c.L.Unlock()
+	x.point(&pendingOp{name: "condwait", obj: x.objID(c), enabled: func() bool { return c.woken[t] }, nopre: x.nopreFor(2)})
+	delete(c.woken, t)
+	c.L.Lock()
+}
+
+// Signal wakes the oldest waiter.
+func (c *Cond) Signal() {
+	x := cx
+	if x == nil {
+		c.real.Signal()
+		return
+	}
+	if x.aborting {
+		return
+	}
+	c.sync(x)
+	x.point(&pendingOp{name: "condsignal", obj: x.objID(c), nopre: x.nopreFor(2)})
+	if len(c.pending) > 0 {
+		c.woken[c.pending[0]] = true
+		c.pending = c.pending[1:]
+	}
+}
+
+// Broadcast wakes all waiters.
+func (c *Cond) Broadcast() {
+	x := cx
+	if x == nil {
+		c.real.Broadcast()
+		return
+	}
+	if x.aborting {
+		return
+	}
+	c.sync(x)
+	x.point(&pendingOp{name: "condbroadcast", obj: x.objID(c), nopre: x.nopreFor(2)})
+	for _, t := range c.pending {
+		c.woken[t] = true
+	}
+	c.pending = nil
+}
+
+// OnceFunc, OnceValue and OnceValues mirror the go1.21 helpers on top of the instrumented Once.
+func OnceFunc(f func()) func() {
+	var o Once
+	return func() { o.Do(f) }
+}
+
+func OnceValue[T any](f func() T) func() T {
+	var o Once
+	var v T
+	return func() T {
+		o.Do(func() { v = f() })
+		return v
+	}
+}
+
+func OnceValues[T1, T2 any](f func() (T1, T2)) func() (T1, T2) {
+	var o Once
+	var v1 T1
+	var v2 T2
+	return func() (T1, T2) {
+		o.Do(func() { v1, v2 = f() })
+		return v1, v2
+	}
+}
+
+type atomicKeyT struct{}
+
+var atomicKey = &atomicKeyT{}
+
+// atomicPoint is the scheduling point after an operation of package sync/atomic (inserted by the
+// instrumenter): all atomic operations are ordered events on one shared object, and they
+// synchronise (release/acquire) in the race oracle.
+func atomicPoint() {
+	x := cx
+	if x == nil || x.aborting {
+		return
+	}
+	x.point(&pendingOp{name: "atomic", obj: x.objID(atomicKey), nopre: x.nopreFor(3)})
+	if x.race != nil {
+		x.cur.vc.join(x.atomicVC)
+		x.atomicVC = x.cur.vc.clone()
+		x.cur.vc.tick(x.cur.id)
+	}
+}
+
+// AtomicAfter wraps a value-returning sync/atomic call.
+func AtomicAfter[T any](v T) T {
+	atomicPoint()
+	return v
+}
+
+// AtomicV wraps a sync/atomic call used as a statement.
+func AtomicV(f func()) {
+	f()
+	atomicPoint()
 }
 
 // OnceFunc etc. are not used by goatcore (go 1.16 code base).
